@@ -389,6 +389,10 @@ func (ex *Exec) pureLibCall(name string, callee *ssa.Function, args []Val, st *S
 		sorts = append(sorts, tm.Sort)
 	}
 	vc.usedExt["pure library function (deterministic, no effects): "+name] = true
+	if t, ok := vc.foldPureLib(name, as); ok {
+		k(st, tv(t), false)
+		return
+	}
 	res := sig.Results()
 	mk := func(i int) Val {
 		rs := vc.sorts.SortOf(res.At(i).Type())
@@ -423,4 +427,31 @@ func libFuncName(name string, idx int, sorts []string) string {
 		n += "_" + sanitize(s)[:minInt(6, len(sanitize(s)))]
 	}
 	return n
+}
+
+// foldPureLib evaluates a pure library function on literal arguments (only the trivially safe cases).
+func (vc *VC) foldPureLib(name string, args []string) (Term, bool) {
+	lit := func(t string) (string, bool) {
+		if t == "str_empty" {
+			return "", true
+		}
+		for s, n := range vc.strLits {
+			if n == t {
+				return s, true
+			}
+		}
+		return "", false
+	}
+	switch name {
+	case "strings.ToUpper", "strings.ToLower":
+		if len(args) == 1 {
+			if s, ok := lit(args[0]); ok {
+				if name == "strings.ToUpper" {
+					return vc.strLit(strings.ToUpper(s)), true
+				}
+				return vc.strLit(strings.ToLower(s)), true
+			}
+		}
+	}
+	return Term{}, false
 }
